@@ -37,9 +37,9 @@ def dump(sql, dialect):
 def main():
     fails, evals = [], 0
     for default in (None, "sx", "MiXed", "q"):
-        for mech in ("env", "scope"):
+        for mech in ("env", "scope", "scope_over_env"):
             for tpl, dialect in SCRIPTS:
-                if default is None and mech == "scope":
+                if default is None and mech != "env":
                     continue
                 evals += 1
                 plain = tpl.format(t="")
@@ -58,9 +58,17 @@ def main():
                         got = dump(plain, dialect)
                     finally:
                         os.environ.pop("SQLLINEAGE_DEFAULT_SCHEMA", None)
-                else:
+                elif mech == "scope":
                     with SQLLineageConfig(DEFAULT_SCHEMA=default):
                         got = dump(plain, dialect)
+                else:
+                    # both mechanisms at once: the scoped override is the configured default while it is active
+                    os.environ["SQLLINEAGE_DEFAULT_SCHEMA"] = "envschema"
+                    try:
+                        with SQLLineageConfig(DEFAULT_SCHEMA=default):
+                            got = dump(plain, dialect)
+                    finally:
+                        os.environ.pop("SQLLINEAGE_DEFAULT_SCHEMA", None)
                 if got != want:
                     fails.append({"clause": "ensures.else_the_default_schema_configured_at_call_time", "default": default, "mechanism": mech, "sql": plain, "dialect": dialect, "got": str(got)[:400], "want": str(want)[:400]})
                 if len(fails) >= 3:
